@@ -211,6 +211,9 @@ type Disk struct {
 	// OnMutation, if set, is called after each logged mutation with its index
 	// (used by harness monitors; must not block or yield).
 	OnMutation func(idx int, op *Op)
+	// OnFault, if set, is called (without the disk lock) each time an error is
+	// injected.
+	OnFault func()
 	// OnRemove, if set, is called before a Remove is applied.
 	OnRemove func(path string)
 
@@ -406,6 +409,9 @@ func (d *Disk) pre(kind OpKind, p string) (bool, error) {
 	short := hit.Short
 	err := &InjectedError{Op: kind, Path: p, Errno: errnoOf(hit.Errno)}
 	d.mu.Unlock()
+	if d.OnFault != nil {
+		d.OnFault()
+	}
 	simrt.Note("fsfault " + kind.String() + " " + p)
 	return short, err
 }
